@@ -6,6 +6,8 @@ package main
 // functions of /repo and writes cases.txt (inputs, oracle format) and impl.txt (outputs).
 
 import (
+	"encoding/base64"
+	"golang.org/x/crypto/argon2"
 	"bufio"
 	"bytes"
 	"fmt"
@@ -499,6 +501,31 @@ func runL0(seed int64, n int, dir string) error {
 				stats["crypto_enc"]++
 				emit("crypto", in, out)
 			}
+			// key derivation: every byte of the passphrase counts (edge white space, NUL, case)
+			{
+				pools := [][]byte{[]byte("pass"), []byte("pass "), []byte(" pass"), []byte("pass\n"), []byte("pass\t"), []byte("Pass"),
+					[]byte("pass\x00"), {}, []byte(" "), []byte("a longer passphrase with spaces "), msg}
+				master := pools[g.r.Intn(len(pools))]
+				var context []byte
+				if g.r.Intn(3) == 0 {
+					context = []byte{byte(g.r.Intn(256)), ' '}
+				}
+				combined := append(append([]byte{}, context...), master...)
+				e64 := []byte(base64.StdEncoding.EncodeToString(combined))
+				salt, _ := kv.VerifNonce(combined, 16)
+				want := argon2.IDKey(e64, salt, 1, 8, 1, 32)
+				in, out := &tw{}, &tw{}
+				in.s("dkey")
+				in.bytes(master)
+				in.bytes(context)
+				in.bytes(e64)
+				in.bytes(salt)
+				in.bytes(want)
+				out.s("ok")
+				out.bytes(kv.VerifDeriveKey(master, context))
+				stats["crypto_dkey"]++
+				emit("crypto", in, out)
+			}
 			// decrypt: round trip, tampered, truncated, wrong key, legacy box
 			ct, _ := kv.VerifEncrypt(&key, msg)
 			kinds := []string{"RT", "TAMPER", "TRUNC", "WRONGKEY", "LEGACY"}
@@ -608,6 +635,12 @@ func runL0(seed int64, n int, dir string) error {
 			}
 			emit("lww", in, out)
 		}
+	}
+	for _, pp := range [][2]string{{"pass", "pass "}, {"pass", " pass"}, {"pass", "pass\n"}, {"pass", "Pass"}, {"pass", "pas"}, {"", " "}, {"p w", "pw"}} {
+		id++
+		fmt.Fprintf(cw, "%d probe different-passphrase x%x x%x\n", id, pp[0], pp[1])
+		fmt.Fprintf(iw, "%d %s\n", id, probeDifferentPassphrase([]byte(pp[0]), []byte(pp[1])))
+		stats["probe_different_passphrase"]++
 	}
 	for _, pass := range [][]byte{{}, nil, []byte("p"), []byte("a longer passphrase")} {
 		id++
